@@ -27,14 +27,17 @@
 //!
 //! - **Pointer casts in `Iter::next` and `IterMut::next`**: iterator items
 //!   hold references into the `HashMap` that must outlive the `next()` call.
-//!   The `RwLockWriteGuard` (owned by the iterator struct) keeps the `HashMap` alive
-//!   for the iterator's lifetime `'a`, so extending the references to `'a` is
-//!   sound. `IterMut` visits each key exactly once, preventing mutable aliasing.
+//!   The lock guard is shared (via `Arc`) between the iterator and every item it
+//!   has handed out, as in real dashmap, so the lock stays held and the `HashMap`
+//!   stays alive and unmodified by others for as long as any item exists.
+//!   `IterMut` visits each key exactly once, preventing mutable aliasing.
 
 use deterministic_collections::HashMap;
 use shuttle::sync::{RwLock, RwLockReadGuard, RwLockWriteGuard};
 use std::borrow::Borrow;
+use std::cell::UnsafeCell;
 use std::hash::Hash;
+use std::sync::Arc;
 
 mod set;
 
@@ -233,7 +236,11 @@ impl<K: Eq + Hash, V> DashMap<K, V> {
     {
         let guard = self.inner.read().unwrap();
         let keys: Vec<K> = guard.keys().cloned().collect();
-        Iter { guard, keys, index: 0 }
+        Iter {
+            guard: Arc::new(guard),
+            keys,
+            index: 0,
+        }
     }
 
     pub fn iter_mut(&self) -> IterMut<'_, K, V>
@@ -242,7 +249,11 @@ impl<K: Eq + Hash, V> DashMap<K, V> {
     {
         let guard = self.inner.write().unwrap();
         let keys: Vec<K> = guard.keys().cloned().collect();
-        IterMut { guard, keys, index: 0 }
+        IterMut {
+            guard: Arc::new(UnsafeCell::new(guard)),
+            keys,
+            index: 0,
+        }
     }
 
     pub fn len(&self) -> usize {
@@ -573,7 +584,7 @@ impl<'a, K: Eq + Hash + Clone, V> VacantEntry<'a, K, V> {
 // ── Iter (immutable) ────────────────────────────────────────────
 
 pub struct Iter<'a, K, V> {
-    guard: RwLockReadGuard<'a, HashMap<K, V>>,
+    guard: Arc<RwLockReadGuard<'a, HashMap<K, V>>>,
     keys: Vec<K>,
     index: usize,
 }
@@ -588,18 +599,22 @@ impl<'a, K: Eq + Hash, V> Iterator for Iter<'a, K, V> {
         let i = self.index;
         self.index += 1;
         let (k, v) = self.guard.get_key_value(&self.keys[i]).unwrap();
-        // SAFETY: the references are valid for 'a because the RwLockReadGuard
-        // (which keeps the HashMap alive) lives for 'a in this struct.
+        // SAFETY: the item shares ownership of the RwLockReadGuard, so the lock is
+        // held and the HashMap is alive and unmodified for as long as the item exists.
         let k: &'a K = unsafe { &*(k as *const K) };
         let v: &'a V = unsafe { &*(v as *const V) };
-        Some(RefMulti { key: k, value: v })
+        Some(RefMulti {
+            _guard: Arc::clone(&self.guard),
+            key: k,
+            value: v,
+        })
     }
 }
 
 // ── IterMut ─────────────────────────────────────────────────────
 
 pub struct IterMut<'a, K, V> {
-    guard: RwLockWriteGuard<'a, HashMap<K, V>>,
+    guard: Arc<UnsafeCell<RwLockWriteGuard<'a, HashMap<K, V>>>>,
     keys: Vec<K>,
     index: usize,
 }
@@ -613,22 +628,34 @@ impl<'a, K: Eq + Hash, V> Iterator for IterMut<'a, K, V> {
         }
         let i = self.index;
         self.index += 1;
-        let k = self.guard.get_key_value(&self.keys[i]).unwrap().0 as *const K;
-        let v = self.guard.get_mut(&self.keys[i]).unwrap() as *mut V;
-        // SAFETY: guard keeps HashMap alive for 'a. Each key is visited
-        // exactly once, so no mutable aliasing occurs.
+        // SAFETY: the guard is only ever accessed here, one `next()` call at a time.
+        let map = unsafe { &mut *self.guard.get() };
+        let k = map.get_key_value(&self.keys[i]).unwrap().0 as *const K;
+        let v = map.get_mut(&self.keys[i]).unwrap() as *mut V;
+        // SAFETY: the item shares ownership of the RwLockWriteGuard, so the lock is held
+        // exclusively and the HashMap is alive for as long as the item exists. Each key is
+        // visited exactly once, so no mutable aliasing occurs.
         let k: &'a K = unsafe { &*k };
         let v: &'a mut V = unsafe { &mut *v };
-        Some(RefMutMulti { key: k, value: v })
+        Some(RefMutMulti {
+            _guard: Arc::clone(&self.guard),
+            key: k,
+            value: v,
+        })
     }
 }
 
 // ── RefMulti / RefMutMulti (iterator items) ─────────────────────
 
 pub struct RefMulti<'a, K, V> {
+    _guard: Arc<RwLockReadGuard<'a, HashMap<K, V>>>,
     key: &'a K,
     value: &'a V,
 }
+
+// SAFETY: same bounds as real dashmap's iterator items.
+unsafe impl<K: Eq + Hash + Sync, V: Sync> Send for RefMulti<'_, K, V> {}
+unsafe impl<K: Eq + Hash + Sync, V: Sync> Sync for RefMulti<'_, K, V> {}
 
 impl<K, V> RefMulti<'_, K, V> {
     pub fn key(&self) -> &K {
@@ -651,9 +678,14 @@ impl<K, V> std::ops::Deref for RefMulti<'_, K, V> {
 }
 
 pub struct RefMutMulti<'a, K, V> {
+    _guard: Arc<UnsafeCell<RwLockWriteGuard<'a, HashMap<K, V>>>>,
     key: &'a K,
     value: &'a mut V,
 }
+
+// SAFETY: same bounds as real dashmap's iterator items.
+unsafe impl<K: Eq + Hash + Sync, V: Sync> Send for RefMutMulti<'_, K, V> {}
+unsafe impl<K: Eq + Hash + Sync, V: Sync> Sync for RefMutMulti<'_, K, V> {}
 
 impl<K, V> RefMutMulti<'_, K, V> {
     pub fn key(&self) -> &K {
